@@ -788,6 +788,18 @@ class Interp:
         tgt["__yield__"].append(v)
         return None
 
+    def eval_YieldFrom(self, e, env):
+        v = self.eval(e.value, env)
+        if isinstance(v, Obj) and v.cls == "dictview":
+            v = list(v.attrs.get("values", v.attrs.get("keys", [])))
+        if not isinstance(v, (list, tuple)):
+            raise Unsupported("yield from a symbolic sequence")
+        tgt = env
+        while tgt is not None and "__yield__" not in tgt:
+            tgt = tgt.get("__parent__")
+        tgt["__yield__"].extend(v)
+        return None
+
     def eval_Lambda(self, e, env):
         return Closure(e, env, env["__module__"], self_obj=env.get("__self__"), cls_ctx=env.get("__cls__"))
 
@@ -1377,7 +1389,10 @@ class Interp:
             if attr == "pop":
                 return d.pop(*args)
             if attr == "update":
-                d.update(*args, **kwargs)
+                new_ = dict(*args, **kwargs)
+                d.update(new_)
+                for k_, v_ in new_.items():
+                    self.ev("dict_store", target=d, key=k_, value=v_, node=node, owner=ast.unparse(node.func.value) if isinstance(getattr(node, "func", None), ast.Attribute) else "dict")
                 return None
             if attr == "setdefault":
                 k_ = args[0]
